@@ -61,6 +61,8 @@ fn opcode(op: &Op) -> u64 {
         Op::Reinsert(_) => 27,
         Op::ProbeDead => 28,
         Op::Churn(_) => 29,
+        Op::SendBurst(_) => 30,
+        Op::Wakeup => 31,
     }
 }
 
@@ -534,6 +536,22 @@ pub fn exec_op(op: &Op, ctx: Ctx) {
             let Some(uid) = w(|w| resolve_any(w, *sel, ctx, &|s| matches!(s.spec.kind, Kind::Chan { .. }) && !s.senders.is_empty())) else { return };
             send(uid);
         }
+        Op::Wakeup => {
+            if let Some(sig) = w(|w| {
+                w.count("wakeup");
+                w.tr(|| "LoopSignal::wakeup()".to_string());
+                w.signal.clone()
+            }) {
+                sig.wakeup();
+            }
+        }
+        Op::SendBurst(sel) => {
+            // more messages than one dispatch delivers (batch limit 1024)
+            let Some(uid) = w(|w| resolve_any(w, *sel, ctx, &|s| matches!(s.spec.kind, Kind::Chan { .. }) && !s.senders.is_empty())) else { return };
+            for _ in 0..1100 {
+                send(uid);
+            }
+        }
         Op::DropSender(sel) => {
             let Some(uid) = w(|w| resolve_any(w, *sel, ctx, &|s| !s.senders.is_empty())) else { return };
             let tx = w(|w| {
@@ -672,7 +690,7 @@ pub fn exec_op(op: &Op, ctx: Ctx) {
             }
         }
         Op::ArmSynth(sel) => {
-            if let Some(uid) = w(|w| resolve(w, *sel, ctx, &|s| s.spec.lifecycle && s.st == St::Enabled)) {
+            if let Some(uid) = w(|w| resolve(w, *sel, ctx, &|s| s.spec.lifecycle && matches!(s.st, St::Enabled | St::Disabled))) {
                 w(|w| {
                     w.srcs[uid].synth_armed = true;
                     w.count("arm_synthetic");
